@@ -34,9 +34,28 @@ VarRec(c, n) == c.vars[CHOOSE j \in 1..Len(c.vars) : c.vars[j].n = n]
 RangeOf(c, n) == LET v == VarRec(c, n) IN LeafRange(v.k, v.w)
 KnownVar(c, n) == \E j \in 1..Len(c.vars) : c.vars[j].n = n
 
+(***************************************************************************)
+(* $present(f): "returns true if the field is present in its structure".   *)
+(* The fixed skeleton (harness/bounds_render.py) declares                  *)
+(*     pa                          unconditional                           *)
+(*     if ga == 1:  pb                                                     *)
+(*     sub : Sub                   unconditional                           *)
+(*     if gc == 1:  osub : Sub                                             *)
+(*     struct Sub:  gy ;  if gy == 1: py ;  pz                             *)
+(* so presence in ITS structure is decided by the guard the member's own   *)
+(* condition reads (for x.py: the gy of that x).                           *)
+(***************************************************************************)
+PresKnown == {"pa", "pb", "sub.py", "sub.pz", "osub.py", "osub.pz"}
+PresGuards(n) == CASE n = "pb" -> {"ga"} [] n = "sub.py" -> {"sub.gy"} [] n = "osub.py" -> {"osub.gy"}
+                   [] n \in {"pa", "sub.pz", "osub.pz"} -> {}
+                   [] OTHER -> {"?$present(" \o n \o ")"}        \* not a field of the skeleton: reported as UnknownVariable
+PresVal(n, rho) == CASE n = "pb" -> rho["ga"] = 1 [] n = "sub.py" -> rho["sub.gy"] = 1 [] n = "osub.py" -> rho["osub.gy"] = 1
+                     [] n \in {"pa", "sub.pz", "osub.pz"} -> TRUE
+
 RECURSIVE VarsOf(_)
 VarsOf(t) ==
   CASE t.k = "var" -> {t.n}
+    [] t.k = "pres" -> PresGuards(t.n)
     [] t.k \in {"vref", "cref"} -> VarsOf(t.e)
     [] t.k = "op" -> UNION {VarsOf(t.args[j]) : j \in 1..Len(t.args)}
     [] OTHER -> {}
@@ -66,6 +85,7 @@ EvalArgs(args, j, rho) == IF j > Len(args) THEN <<>> ELSE <<EvalAll(args[j], rho
 EvalAll(t, rho) ==
   CASE t.k \in {"int", "bool"} -> <<t.v>>
     [] t.k = "var" -> <<rho[t.n]>>
+    [] t.k = "pres" -> <<PresVal(t.n, rho)>>
     [] t.k \in {"vref", "cref"} -> LET sub == EvalAll(t.e, rho) IN <<sub[1]>> \o sub
     [] t.k = "op" ->
          LET subs == EvalArgs(t.args, 1, rho)
@@ -78,11 +98,11 @@ RECURSIVE KidOffsets(_, _, _)
 KidOffsets(subs, j, off) ==
   IF j > Len(subs) THEN <<>> ELSE <<off>> \o KidOffsets(subs, j + 1, off + Len(subs[j]))
 Summary(t, size, kids) ==
-  [k |-> t.k, fn |-> IF t.k = "op" THEN t.fn ELSE "", n |-> IF t.k \in {"var", "vref", "cref"} THEN t.n ELSE "",
+  [k |-> t.k, fn |-> IF t.k = "op" THEN t.fn ELSE "", n |-> IF t.k \in {"var", "vref", "cref", "pres"} THEN t.n ELSE "",
    v |-> IF t.k \in {"int", "bool"} THEN t.v ELSE 0, ty |-> t.ty, cv |-> t.cv, size |-> size, kids |-> kids]
 FlatArgs(args, j) == IF j > Len(args) THEN <<>> ELSE <<Flat(args[j])>> \o FlatArgs(args, j + 1)
 Flat(t) ==
-  CASE t.k \in {"int", "bool", "var"} -> <<Summary(t, 1, <<>>)>>
+  CASE t.k \in {"int", "bool", "var", "pres"} -> <<Summary(t, 1, <<>>)>>
     [] t.k \in {"vref", "cref"} -> LET sub == Flat(t.e) IN <<Summary(t, 1 + Len(sub), <<1>>)>> \o sub
     [] t.k = "op" ->
          LET subs == FlatArgs(t.args, 1)
@@ -101,6 +121,7 @@ Strip(t) ==
   CASE t.k = "int" -> [k |-> "int", v |-> t.v]
     [] t.k = "bool" -> [k |-> "bool", v |-> t.v]
     [] t.k = "var" -> [k |-> "var", n |-> t.n]
+    [] t.k = "pres" -> [k |-> "pres", n |-> t.n]
     [] t.k = "cref" -> [k |-> "cref", n |-> t.n]
     [] t.k = "vref" -> IF t.e.k = "var" THEN [k |-> "var", n |-> t.e.n] ELSE [k |-> "vref", n |-> t.n]
     [] t.k = "op" -> [k |-> "op", fn |-> t.fn, args |-> StripArgs(t.args, 1)]
@@ -145,7 +166,7 @@ Design(c, F, j) ==
 \* once below the node, and every ?: condition below it either really goes both ways or is a
 \* constant the compiler knows
 NoRepeatedVar(F, j) ==
-  \A p, q \in j..(j + F[j].size - 1) : (p # q /\ F[p].k = "var" /\ F[q].k = "var") => F[p].n # F[q].n
+  \A p, q \in j..(j + F[j].size - 1) : (p # q /\ F[p].k = F[q].k /\ F[p].k \in {"var", "pres"}) => F[p].n # F[q].n
 CondsFree(F, S, j) ==
   \A p \in j..(j + F[j].size - 1) :
     (F[p].k = "op" /\ F[p].fn = "?:") =>
